@@ -326,6 +326,10 @@ class Specifier(BaseSpecifier):
 
     @property
     def _canonical_spec(self) -> tuple[str, str]:
+        if self._spec[0] == "===":
+            # Arbitrary equality compares the text case-insensitively and
+            # nothing else, so that is all equality may ignore.
+            return self._spec[0], self._spec[1].lower()
         canonical_version = canonicalize_version(
             self._spec[1],
             strip_trailing_zero=(self._spec[0] != "~="),
